@@ -377,6 +377,9 @@ pub fn generate(rng: &mut Rng, tier: Tier) -> Scenario {
     let len = (3 * sp + 3 + rng.range(0, 40)).min(max_len.max(3 * sp + 3));
     let len = if rng.chance(0.02) { max_len.max(len) } else { len };
     let p_reset = if rng.chance(0.3) { 0.05 } else { 0.003 };
+    // reset / clone / Debug / serialize cost O(window): keep the work of one run bounded for huge windows
+    let heavy_scale = if sp > 2000 { (2000.0 / sp as f64).min(1.0) * (2000.0 / len as f64).min(1.0) } else { 1.0 };
+    let p_reset = p_reset * heavy_scale;
     let mut ops = vec![];
     let mut buf = vec![];
     let mut fed = 0;
@@ -406,16 +409,16 @@ pub fn generate(rng: &mut Rng, tier: Tier) -> Scenario {
                 ops.push(Op::Reset { n: 0 });
             }
         }
-        if rng.chance(0.01) {
+        if rng.chance(0.01 * heavy_scale) {
             ops.push(Op::Format { n: 0 });
         }
-        if rng.chance(0.01) {
+        if rng.chance(0.01 * heavy_scale) {
             ops.push(Op::Save { n: 0 });
         }
-        if rng.chance(0.005) {
+        if rng.chance(0.005 * heavy_scale) {
             ops.push(Op::RoundTrip { n: 0, times: 1, json: false });
         }
-        if rng.chance(0.005) && forks < 3 {
+        if rng.chance(0.005 * heavy_scale.max(1e-5)) && forks < 3 {
             forks += 1;
             ops.push(Op::Fork { src: 0, dst: forks, into: false });
         } else if rng.chance(0.004) && forks > 0 {
